@@ -12,11 +12,14 @@ import (
 	"github.com/ThreeDotsLabs/watermill/zzverif/vrt"
 )
 
+// the handler's publish topic; "" is legal together with a real publisher (one that routes by metadata)
+var c02PublishTopic = "out"
+
 func c02Handler(pubKind int, pub *scriptedPublisher) *handler {
 	h := &handler{
 		name:                  "h",
 		logger:                watermill.NopLogger{},
-		publishTopic:          "out",
+		publishTopic:          c02PublishTopic,
 		subscribeTopic:        "in",
 		runningHandlersWg:     &sync.WaitGroup{},
 		runningHandlersWgLock: &sync.Mutex{},
@@ -150,7 +153,7 @@ func c02Check(prefix string, s c02Script, pubKind int, run *c02Run) {
 	} else if wantsPublish {
 		vrt.Assert(ncalls == 1, "produced messages are published with exactly one call")
 		c := pub.calls[0]
-		vrt.Assert(c.topic == "out", "outputs go to the handler's publish topic")
+		vrt.Assert(c.topic == c02PublishTopic, "outputs go to the handler's publish topic")
 		same := len(c.msgs) == nReturned
 		if same {
 			for i := range c.msgs {
@@ -169,6 +172,7 @@ func c02Check(prefix string, s c02Script, pubKind int, run *c02Run) {
 
 // HarnessC02Settle: one message through the real handleMessage for every handler / publisher behaviour.
 func HarnessC02Settle() {
+	c02PublishTopic = vrt.PickStr("publish.topic", "out", "")
 	pubKind := vrt.Int("pubkind", 0, 2)
 	s := c02ReadScript("", vrt.Bound("maxout", 2))
 	msg := NewMessage("m", nil)
